@@ -256,6 +256,21 @@ fn once() -> i32 {
             kk.poll_secure_channel_status().await;
         });
         let ks = shared.get_key_keeper_shared_state();
+        if opt_env("VERIF_KK_AUTONOTIFY", "0") == "1" {
+            // the 1 s waits while the state is unknown are cut short with the public notify() (a no-op on the
+            // state in that situation), so that a retry after a failed step does not cost a second per kill point
+            let ks2 = ks.clone();
+            tokio::spawn(async move {
+                loop {
+                    tokio::time::sleep(Duration::from_millis(4)).await;
+                    if let Ok(s) = ks2.get_current_secure_channel_state().await {
+                        if s == crate::key_keeper::UNKNOWN_STATE {
+                            let _ = ks2.notify().await;
+                        }
+                    }
+                }
+            });
+        }
         let t0 = Instant::now();
         let (guid, key) = loop {
             if let (Ok(Some(g)), Ok(Some(k))) = (ks.get_current_key_guid().await, ks.get_current_key_value().await) {
